@@ -394,6 +394,13 @@ func (fr *Frame) enterLoop(li *loopInfo, pre *State, pc Term) *State {
 	}
 	cells, heaps, top, allocs := fr.loopWrites(li)
 	st := pre.clone()
+	// objects allocated by earlier iterations lie above the watermark the
+	// loop was entered with: advance it before the loop-carried variables are
+	// given their arbitrary loop-head values (their type facts bound
+	// references by the current watermark)
+	if allocs || top {
+		vc.bumpWatermark(st)
+	}
 	var ck []ssa.Value
 	for c := range cells {
 		ck = append(ck, c)
@@ -425,9 +432,6 @@ func (fr *Frame) enterLoop(li *loopInfo, pre *State, pc Term) *State {
 		} else {
 			st.cells[c] = vc.fresh("loop:"+c.Name(), pre.cells[c].Sort)
 		}
-	}
-	if allocs || top {
-		vc.bumpWatermark(st)
 	}
 	li.modTop = top
 	if top {
